@@ -2,7 +2,7 @@
    propagator evaluates the same Fresnel integral as the one-step propagator. *)
 From Coq Require Import Reals List Arith.
 Require Import AOV.base.Num AOV.base.NumR AOV.base.Cplx AOV.model.Fourier AOV.model.Optics
-               AOV.proofs.C11_proofs.
+               AOV.proofs.C11_proofs AOV.proofs.C10_linear.
 Local Open Scope R_scope.
 
 Theorem C11_zero_distance_is_identity : forall G K (U : list (list (R * R))) wvl d1 d2,
@@ -42,6 +42,23 @@ Definition C11_mag_roundtrip_stmt (G : R -> R) (K : R -> R -> R) : Prop :=
   exists kappa : R,
     angularSpectrum (ROps G K) (angularSpectrum (ROps G K) U wvl d (m * d) z) wvl (m * d) d (- z)
     = cmulc_m (ROps G K) (cis (ROps G K) kappa) U.
+
+(* with magnification m = d2/d1, propagating back with 1/m over -z recovers the input up to ONE constant phase,
+   whose value is explicit: it comes from the +1e-10 offset inside the code's source-plane quadratic phase *)
+Theorem C11_magnified_round_trip : forall G K N (U : list (list (R * R))) wvl d1 d2 z,
+  wf_mat N N U -> (0 < N)%nat -> d1 <> 0 -> d2 <> 0 -> z <> 0 ->
+  angularSpectrum (ROps G K) (angularSpectrum (ROps G K) U wvl d1 d2 z) wvl d2 d1 (- z)
+  = cmulc_m (ROps G K) (cis (ROps G K) (AS_kappa G K wvl d1 d2 z)) U
+  /\ AS_kappa G K wvl d1 d2 z = kwave (ROps G K) wvl / 2 * (eps10 (ROps G K) / z) * (d1 / d2 - d2 / d1)
+  /\ map (map (cabs2 (ROps G K))) (angularSpectrum (ROps G K) (angularSpectrum (ROps G K) U wvl d1 d2 z) wvl d2 d1 (- z))
+     = map (map (cabs2 (ROps G K))) U.
+Proof.
+  intros G K N U wvl d1 d2 z W HN H1 H2 Hz. split; [|split].
+  - apply (AS_mag_roundtrip_kappa G K N); assumption.
+  - apply AS_kappa_closed; assumption.
+  - apply (AS_mag_roundtrip_intensity G K N); assumption.
+Qed.
+Print Assumptions C11_magnified_round_trip.
 
 Example C11_nonvacuous : wf_mat 2 2 (((1,0)::(0,1)::nil)::((2,0)::(0,0)::nil)::nil : list (list (R*R))) /\ 1 + 2 <> 0.
 Proof. split; [split; [reflexivity|repeat constructor]|Lra.lra]. Qed.
